@@ -79,7 +79,15 @@ RULE = (
     "plus seeded random combinations of 2-4 of these and PAIRS of dangling references in different items (thorough: all pairs; "
     "quick: 30 per scenario); compared: multiset of (issue kind, name, label) with and without parameters, parameter label "
     "set, fill result tree / error class; a case is non-trivial when it contains at least one reference; distinct = distinct "
-    "(scenario, mutation list)"
+    "(scenario, mutation list); "
+    "ORACLE ONLY (declared types are outside the Schema of the Lean model): megacomplex types declared plugin-style with "
+    "@megacomplex(...) on classes DERIVED from other megacomplex types - exhaustively every parent flag combination "
+    "(harness-declared unique / exclusive parents and the builtin coherent-artifact, baseline, clp-guide, decay-parallel) x "
+    "every declaration of the child (unique / exclusive omitted, False, True), each with 8-16 dataset usage patterns (child "
+    "alone / twice / next to another / next to its parent, as megacomplex and as global_megacomplex), plus seeded random trees of "
+    "2-4 declared types up to depth three with random megacomplex lists; required: exactly the unique / exclusive issues that "
+    "the types' OWN declarations imply (defaults False; flags of a base type are not inherited), valid()/validate() agree, "
+    "a valid model fills"
 )
 
 GEN_FILE = core.LEAN / "GlotaranModel" / "Generated" / "C20.lean"
@@ -1567,6 +1575,259 @@ def untyped_reference_probe(ck, schema, scs):
     ck.extra["scheme_level_positions_observed"] = out
 
 
+# ------------------------------------------------------------------------------------------
+# derived megacomplex types (plugin style class hierarchies): judged by the oracle only
+# ------------------------------------------------------------------------------------------
+# The Schema of the Lean model lists the builtin classes; a type declared by a plugin with `@megacomplex(...)` on a class
+# DERIVED from another megacomplex type is outside it.  The statement of C20 is evaluated on such models directly:
+# a unique / exclusive violation is decided by what the type's own declaration says (documented defaults unique=False,
+# exclusive=False), never by what a base class declared.
+#
+# flags of the builtin types as their documentation declares them (oracle-side table, NOT read from the classes)
+ORACLE_BUILTIN_PARENTS = {
+    "coherent-artifact": {"unique": True, "exclusive": False, "spec": {"order": 1}},
+    "baseline": {"unique": True, "exclusive": False, "spec": {"dimension": "time"}},
+    "clp-guide": {"unique": False, "exclusive": True, "spec": {"dimension": "time", "target": "s1"}},
+    "decay-parallel": {"unique": False, "exclusive": False, "spec": {"compartments": ["s1"], "rates": ["r.1"]}},
+}
+DERIVED_PARAMS = {"r": [["1", 0.5]]}
+DERIVED_DECLS = (None, False, True)   # the flag omitted in `@megacomplex(...)`, explicit False, True
+DERIVED_PREFIX = "c20h-"
+
+
+def _derived_type_string(name):
+    return name[8:] if name.startswith("builtin:") else DERIVED_PREFIX + name
+
+
+def _derived_cleanup():
+    """the decorator registers every declared type globally: remove the harness' types again"""
+    try:
+        import glotaran.plugin_system.base_registry as br
+        from glotaran.model import Megacomplex
+        regs = [getattr(Megacomplex, "__item_types__", {}), getattr(br, "__PluginRegistry").megacomplex]
+    except Exception:  # noqa: BLE001 — registries moved: nothing to clean
+        return
+    for reg in regs:
+        for k in [k for k in list(reg) if DERIVED_PREFIX in str(k) or "C20H_" in str(k)]:
+            reg.pop(k, None)
+
+
+def derived_instances(types):
+    """{label: (type string, spec without `type`)}: two instances of every declared type and of every builtin parent"""
+    spec_of, out = {}, {}
+    for name, parent, _, _ in types:
+        if parent == "Megacomplex":
+            spec_of[name] = {"dimension": "time"}
+        elif parent.startswith("builtin:"):
+            spec_of[name] = ORACLE_BUILTIN_PARENTS[parent[8:]]["spec"]
+            spec_of[parent] = spec_of[name]
+        else:
+            spec_of[name] = spec_of[parent]
+    for name in sorted(spec_of):
+        base = name[8:].replace("-", "_") if name.startswith("builtin:") else name
+        for sfx in ("a", "b"):
+            out[f"{base}_{sfx}"] = (_derived_type_string(name), spec_of[name])
+    return out
+
+
+def build_derived(types):
+    """declares the hierarchy the way a plugin does; returns the model class"""
+    _glotaran()
+    from glotaran.model import Megacomplex, Model, megacomplex
+    from glotaran.plugin_system.megacomplex_registration import get_megacomplex
+
+    classes, used = {}, []
+    for name, parent, unique, exclusive in types:
+        if parent == "Megacomplex":
+            pcls = Megacomplex
+        elif parent.startswith("builtin:"):
+            pcls = get_megacomplex(parent[8:])
+            if pcls not in used:
+                used.append(pcls)
+        else:
+            pcls = classes[parent]
+        kw = {}
+        if unique is not None:
+            kw["unique"] = unique
+        if exclusive is not None:
+            kw["exclusive"] = exclusive
+        dmt = pcls.get_dataset_model_type()
+        if dmt is not None:
+            kw["dataset_model_type"] = dmt
+        cls = type("C20H_" + name, (pcls,), {"__annotations__": {"type": str}, "type": DERIVED_PREFIX + name,
+                                             "__module__": __name__})
+        classes[name] = megacomplex(**kw)(cls)
+        used.append(classes[name])
+    return Model.create_class_from_megacomplexes(used)
+
+
+def derived_expected(types, instances, dataset):
+    """oracle: the unique / exclusive issues the property demands, from the DECLARATIONS alone"""
+    decl = {k: (v["unique"], v["exclusive"]) for k, v in ORACLE_BUILTIN_PARENTS.items()}
+    for name, _, unique, exclusive in types:
+        decl[DERIVED_PREFIX + name] = (bool(unique), bool(exclusive))
+    must = []
+    for attr in ("megacomplex", "global_megacomplex"):
+        labels = list(dataset.get(attr) or [])
+        ts = [instances[x][0] for x in labels]
+        for x, t in zip(labels, ts):
+            unique, exclusive = decl[t]
+            if exclusive and len(labels) > 1:
+                must.append(f"[exclusive,{enc(x)},{enc('megacomplex/' + t)}]")
+            if unique and ts.count(t) > 1:
+                must.append(f"[unique,{enc(x)},{enc('megacomplex/' + t)}]")
+    return sorted(must)
+
+
+def run_derived_case(ck, types, dataset, model_class=None):
+    """one model over a declared hierarchy: validation with / without parameters, valid(), validate(), fill"""
+    types = [tuple(t) for t in types]
+    instances = derived_instances(types)
+    case = {"scenario": "derived-types", "types": [list(t) for t in types], "dataset": dataset,
+            "instances": {k: v[0] for k, v in instances.items()}}
+    own = model_class is None
+    try:
+        with warnings.catch_warnings():
+            warnings.simplefilter("ignore")
+            try:
+                M = build_derived(types) if own else model_class
+                model = M(megacomplex={k: dict(copy.deepcopy(s), type=t) for k, (t, s) in instances.items()},
+                          dataset={"d1": copy.deepcopy(dataset)})
+            except Exception as e:  # noqa: BLE001 — a hierarchy a plugin may declare must be accepted
+                ck.count("derived:construction-error:" + type(e).__name__)
+                ck.violation("derived-type-rejected-" + type(e).__name__,
+                             f"a megacomplex type hierarchy declared with @megacomplex(...) / a model that uses it cannot be "
+                             f"constructed: {e!r}", case)
+                return
+            ps = build_params(DERIVED_PARAMS)
+            must = derived_expected(types, instances, dataset)
+            ck.case(("derived-types", repr(types), repr(sorted(dataset.items()))), True)
+            ck.count("stream:derived-types")
+            ck.count("derived:expected:" + ("valid" if not must else "-".join(sorted({m[1:].split(",")[0] for m in must}))))
+            for with_ps in (True, False):
+                ck.oracle_evals += 1
+                res = real_issues(model, ps if with_ps else None)
+                if res[0] == "err":
+                    ck.violation("derived-type-internal-error-" + res[1], f"Model.get_issues raised {res[2]} for a model whose "
+                                 f"megacomplex types are derived from other types; required issues: {must}", case)
+                    continue
+                got = res[1]
+                missing, extra = list(must), []
+                for g in got:
+                    if g in missing:
+                        missing.remove(g)
+                    else:
+                        extra.append(g)
+                if missing:
+                    ck.violation("derived-type-unreported-" + "-".join(sorted({x[1:].split(",")[0] for x in missing})),
+                                 f"declared unique / exclusive type violated but not reported: {missing}; reported: {got}", case)
+                if extra:
+                    ck.violation("derived-type-spurious-" + "-".join(sorted({x[1:].split(",")[0] for x in extra})),
+                                 "all references resolve and no type DECLARED unique / exclusive is duplicated / combined "
+                                 f"(flags of a base type are not the type's declaration), but get_issues reports {extra}; "
+                                 f"required: {must}", case)
+                try:
+                    v = model.valid(ps if with_ps else None)
+                    text = str(model.validate(ps if with_ps else None))
+                    if v != (not got) or (("Your model is valid." in text) != (not got)):
+                        ck.violation("validate-inconsistent", f"valid()={v}, validate()={text!r}, get_issues={got}", case)
+                except Exception as e:  # noqa: BLE001
+                    ck.violation("internal-error-validate-" + type(e).__name__, f"validate()/valid() raised {e!r}", case)
+                if with_ps and not got and not must:
+                    from glotaran.model.item import fill_item
+                    try:
+                        f = fill_item(model.dataset["d1"], model, ps)
+                        unfilled = [m for m in list(f.megacomplex) + list(f.global_megacomplex or []) if isinstance(m, str)]
+                        if unfilled:
+                            ck.violation("valid-model-does-not-fill", f"model validates but fill_item leaves {unfilled}", case)
+                        ck.count("derived:fill:ok")
+                    except Exception as e:  # noqa: BLE001
+                        ck.violation("valid-model-does-not-fill", f"model validates but fill_item raised {e!r}", case)
+    finally:
+        if own:
+            _derived_cleanup()
+
+
+def derived_dataset_patterns(parent, child):
+    """usage patterns of a parent / child pair (parent None: the base class `Megacomplex`, which has no instances)"""
+    c1, c2, x = f"{child}_a", f"{child}_b", "plain_a"
+    lists = [[c1], [c1, c2], [c1, x], [c1, c2, x]]
+    if parent is not None:
+        p = parent[8:].replace("-", "_") if parent.startswith("builtin:") else parent
+        lists += [[f"{p}_a", c1], [f"{p}_a", f"{p}_b"], [f"{p}_a", x], [f"{p}_a", c1, c2]]
+    out = [{"megacomplex": l} for l in lists]
+    out += [{"megacomplex": [x], "global_megacomplex": l} for l in lists]
+    return out
+
+
+def derived_hierarchies_systematic():
+    """every (flags of the parent) x (declaration of the child), depth two: harness-declared and builtin parents"""
+    plain = ("plain", "Megacomplex", None, None)
+    out = []
+    for cu in DERIVED_DECLS:
+        for ce in DERIVED_DECLS:
+            for pu in (False, True):
+                for pe in (False, True):
+                    out.append(([plain, ("base", "Megacomplex", pu, pe), ("child", "base", cu, ce)], "base", "child"))
+            for b in sorted(ORACLE_BUILTIN_PARENTS):
+                out.append(([plain, ("child", "builtin:" + b, cu, ce)], "builtin:" + b, "child"))
+    return out
+
+
+def derived_hierarchy_random(rng):
+    """a tree of 2-4 declared types of depth up to three below `Megacomplex` or a builtin type"""
+    types = [("plain", "Megacomplex", None, None)]
+    root = rng.choice(["Megacomplex"] + ["builtin:" + b for b in sorted(ORACLE_BUILTIN_PARENTS)])
+    names = []
+    for i in range(rng.randint(2, 4)):
+        parent = root if not names else rng.choice(names[-2:] + ([root] if root != "Megacomplex" and rng.random() < 0.2 else []))
+        if root == "Megacomplex" and not names:
+            parent = "Megacomplex"
+        names.append(f"t{i}")
+        types.append((f"t{i}", parent, rng.choice(DERIVED_DECLS), rng.choice(DERIVED_DECLS)))
+    return types
+
+
+def derived_stream(ck):
+    n_sys = n_rand = 0
+    for types, parent, child in derived_hierarchies_systematic():
+        try:
+            with warnings.catch_warnings():
+                warnings.simplefilter("ignore")
+                try:
+                    M = build_derived(types)
+                except Exception:  # noqa: BLE001 — reported with the concrete case by run_derived_case
+                    M = None
+            for ds in derived_dataset_patterns(parent, child):
+                run_derived_case(ck, types, ds, M)
+                n_sys += 1
+            ck.count(f"derived:parent:{parent if parent.startswith('builtin:') else 'declared'}")
+        finally:
+            _derived_cleanup()
+    for _ in range(ck.n(40, 400)):
+        types = derived_hierarchy_random(ck.rng)
+        labels = sorted(derived_instances(types))
+        ck.count(f"derived:random-types:{len(types) - 1}")
+        try:
+            with warnings.catch_warnings():
+                warnings.simplefilter("ignore")
+                try:
+                    M = build_derived(types)
+                except Exception:  # noqa: BLE001
+                    M = None
+            for _ in range(6):
+                ds = {"megacomplex": ck.rng.sample(labels, ck.rng.randint(1, min(4, len(labels))))}
+                if ck.rng.random() < 0.5:
+                    ds["global_megacomplex"] = ck.rng.sample(labels, ck.rng.randint(1, min(4, len(labels))))
+                run_derived_case(ck, types, ds, M)
+                n_rand += 1
+        finally:
+            _derived_cleanup()
+    ck.extra["derived_type_hierarchies"] = {
+        "systematic_cases": n_sys, "random_cases": n_rand,
+        "judged_by": "oracle only (declared types are outside the Schema of the Lean model)"}
+
+
 def run(ck):
     schema = walk_schema()
     if not getattr(ck, "_no_driver_check", False):
@@ -1582,7 +1843,9 @@ def run(ck):
     batch = []
     for c in core.load_corpus(PROP):
         cc = c.get("case", c)
-        if cc.get("scenario") in scs:
+        if cc.get("scenario") == "derived-types":
+            run_derived_case(ck, cc["types"], cc["dataset"])
+        elif cc.get("scenario") in scs:
             batch.append((cc["scenario"], scs[cc["scenario"]], [mut_from_json(m) for m in cc["mutations"]], False))
     if batch:
         compare(ck, schema, batch, "corpus")
@@ -1632,6 +1895,9 @@ def run(ck):
             compare(ck, schema, [(name, sc, m, False) for m in pairs[i:i + 400]], "pairs")
     ck.extra["pairs_of_dangling_references"] = {"cases": n_pairs, "all_pairs": not ck.quick}
     untyped_reference_probe(ck, schema, scs)
+    # megacomplex types declared on classes derived from other megacomplex types (oracle only; last: the declarations
+    # register types globally, they are removed again)
+    derived_stream(ck)
 
 
 def search(ck):
@@ -1643,6 +1909,7 @@ def search(ck):
             run_case(ck, schema, name, sc, m, evaluate=not m)
         if ck.violations:
             return
+    derived_stream(ck)
 
 
 def replay(ck, case):
@@ -1659,6 +1926,10 @@ def replay(ck, case):
         print("nothing replayable in this file (schema-level disagreement: re-run the check)")
         return
     for c in todo:
+        if c.get("scenario") == "derived-types":
+            run_derived_case(ck, c["types"], c["dataset"])
+            print(f"replayed derived-types types={c['types']} dataset={c['dataset']}: violations={len(ck.violations)}")
+            continue
         muts = [mut_from_json(m) for m in c["mutations"]]
         n = compare(ck, schema, [(c["scenario"], scs[c["scenario"]], muts, not muts)], "replay")
         print(f"replayed scenario={c['scenario']} mutations={muts}: model-vs-impl differences={n}, violations={len(ck.violations)}")
